@@ -153,6 +153,20 @@ CHECKS = {
               'level records',
               'Every droppable level of every generated taxonomy.',
               'DESIGN.md section 2 C17', _BASE_NOTE),
+    'C19': _e('exploration',
+              'file-system monitors around real stage executions: recursive '
+              'sha256 snapshots of input / output / scratch / TMPDIR / cwd '
+              'before and after every stage and after failing mapping runs '
+              '(invalid inputs and injected worker faults); strace -f '
+              'write-set monitor (every path opened for writing, created, '
+              'renamed or removed must be a declared output or scratch); '
+              'history monitor (stale files planted under every name '
+              'pattern, success after success / failure) and concurrent '
+              'pairs sharing directories, compared bitwise with solo / '
+              'clean-directory results',
+              'Every stage of the chain, 13 failure classes, every stale '
+              'name pattern; syscall counts in the evidence.',
+              'DESIGN.md section 2 C19', _BASE_NOTE),
 }
 
 PENDING_REASON = ('check not built yet in this session; the property is in '
